@@ -115,6 +115,7 @@ PROPS = {
         "streams": [
             {"name": "ofint", "n_quick": 100000, "n_thorough": 5000000},
             {"name": "inj", "n_quick": 60000, "n_thorough": 3000000, "compare": False},
+            {"name": "injbase", "n_quick": 60000, "n_thorough": 3000000, "compare": False},
         ],
         "rule": "ofint: i64 values (small, near powers of two 2^50..2^62 +- 4100, extremes, random 63-bit, half-way cases) -> `n as f64` vs the Lean ties-to-even model; non-trivial = |n| >= 2^53. "
                 "inj: source types (all scalar variants, optional, struct, list) x 9 target variants x two member values (neighbouring integers, sign-flipped floats): image membership, totality, value preservation, injectivity, round trip; non-trivial = the conversion is accepted",
@@ -123,5 +124,33 @@ PROPS = {
         "technique": "Lean 4 proof (endpoint-image theorem for monotone value maps, exactness of i64->f64 below 2^53, kernel-checked counterexamples beyond) + bit-exact correspondence of the rounding model + conversion oracle on the implementation",
         "level_text": "Theorems (Props/C12.lean): mapping and re-ordering interval endpoints by any monotone or antitone value map covers the image of every member (any capacity); bool<->int round-trips and refuses other integers; `i64 as f64` (modelled bit-exactly, ties to even) is the identity below 2^53, hence Integer->Float is injective there; kernel-checked negations beyond (2^53 and 2^53+1 collide; float 2^63 converts to i64::MAX). The rounding model agrees with Rust on generated i64 values; all accepted conversions are swept by the oracle.",
         "level_note": "Trusted: Lean kernel; harness. Modelled, not verified: text/bytes/date conversions and composite liftings (oracle only).",
+    },
+    "C01": {
+        "lean_modules": ["QrlewModel.Props.C01"],
+        "streams": [
+            {"name": "clip", "n_quick": 3000, "n_thorough": 150000, "min_per_proc": 100},
+            {"name": "c01", "n_quick": 1500, "n_thorough": 60000, "compare": False, "min_per_proc": 50},
+        ],
+        "rule": "clip: generated tracked tables (1-6 units, 1-4 groups, 0-30 rows, NULL values, C in {0, 1, 2.5, 10, 1000}) -> the real l2_clipped_sums relation rendered and executed on SQLite vs the Lean clipping model on Float; every unit removed in turn. "
+                "c01: generated aggregation queries (users / orders via foreign key / join; ungrouped or public-valued keys; WHERE) x DpParameters (max multiplicity 1, 2, 100; share 1, 0.01) x databases where units exceed the multiplicity assumption (up to 40 rows per unit): "
+                "the noise-adding Map of the real DP relation is executed with noise neutralised on D and on D minus one unit, L2 distance per noised column vs the C read from the IR; non-trivial = the removed unit contributes",
+        "trusted_base": COMMON_TRUST + ["SQLite 3.40 as executor of the rendered relation (+ harness shims: MD5, FIRST/LAST, GREATEST/LEAST, MEAN/VAR/STD, RANDOM override, VALUES column lists)", "Mathlib Real.sqrt", "IR extraction of σ and C (harness/src/ir.rs)"],
+        "assumptions": ["keys are public-valued or absent in the execution oracle (with thresholded keys the set of released groups itself depends on the unit; that is C04)", "float rounding in norm/scale is not modelled"],
+        "technique": "Lean 4 proof over ℝ (clipped contribution ≤ C, locality of contributions, sensitivity under removal of a unit) + Float instance of the same definitions compared with the real clipping relation executed on SQLite + neighbouring-database execution oracle",
+        "level_text": "Theorems (Props/C01.lean), for any number of groups, units and rows per unit: the clipped vector of a unit has L2 norm ≤ C; the released vector is the sum of the units' clipped vectors (a unit's contribution depends only on its own rows); removing one unit changes the released vector by ≤ C in L2 norm. The same definitions on Float reproduce the real l2_clipped_sums relation executed on SQLite; the real DP rewriting is executed on neighbouring databases and the observed L2 change of every noised column is compared with the C its σ was scaled by.",
+        "level_note": "Trusted: Lean kernel, Mathlib; SQLite; harness shims and IR extraction. Modelled, not verified: the SQL engine's evaluation of the rendered pipeline, NULL-unit rows, float rounding.",
+    },
+    "C09": {
+        "lean_modules": ["QrlewModel.Props.C09"],
+        "streams": [
+            {"name": "c09", "n_quick": 1500, "n_thorough": 60000, "compare": False, "min_per_proc": 50},
+        ],
+        "rule": "c09: generated aggregation queries (count/sum/avg/variance/stddev, count distinct; users, orders via foreign key, join; WHERE; ungrouped or grouped by the public-valued key) x in-range databases (3-40 users, 0-4 orders each) x (ε, δ); "
+                "RANDOM() ≡ 0.25 (every Box–Muller draw is 0), multiplicity bound far above any unit's rows; original vs DP results compared group by group; non-trivial = the original result is non-empty",
+        "trusted_base": COMMON_TRUST + ["SQLite 3.40 + harness shims as executor", "Mathlib reals"],
+        "assumptions": ["NULL (SQL, empty input / single row for var) vs 0 (DP expression) is accepted within 1e-3", "variance/stddev: population or sample value accepted", "extra groups in the DP result must be empty public groups"],
+        "technique": "Lean 4 proof over ℝ (no rescaling within the bound ⇒ clipped sums = sums; mean and variance recombination identities) + differential execution of original vs DP relation on SQLite with noise and clipping neutralised",
+        "level_text": "Theorems (Props/C09.lean): a unit within the clipping bound is not rescaled and the clipped sums of any database of such units are the plain sums; sum/greatest(1,count) is the mean of a non-empty group; E[x²] − E[x]² is the variance of the data (with a kernel-checked counterexample for the pre-repair formula E[x²] − E[x]). The real DP rewriting is executed on SQLite with noise neutralised and compared with the original query on generated databases.",
+        "level_note": "Trusted: Lean kernel, Mathlib; SQLite and shims. Modelled, not verified: DISTINCT splitting and re-join, public-key left join (execution oracle only).",
     },
 }
